@@ -182,6 +182,13 @@ def replay(path):
 
 def check_property(pid, tier, seed):
     t0 = time.time()
+    if tier == "thorough":
+        # thorough tier: hypotheses-only vacuity probe for EVERY discharged obligation (report-only; the quick tier
+        # probes the (Seq String) files only). Measured once on all 20 properties with the verdict switch on
+        # (PYVC_PROBE_ALL=1 PYVC_VACUITY_STRICT=1, 2026-10-02): 0 vacuous proofs except three `raises` obligations whose
+        # goal is literally `false` (an exception path that the preconditions make infeasible), for which "hypotheses
+        # unsat" IS the proof.
+        os.environ.setdefault("PYVC_PROBE_ALL", "1")
     load_all_contracts()
     from vcheck import extra  # property-specific bounded stand-ins / conformance
 
